@@ -213,6 +213,18 @@ pub fn gen_vocab(src: &mut Source, lang: &str, flavor: Flavor, lo: usize, hi: us
                 continue;
             }
         }
+        if !v.is_empty() && src.chance(1, 8) {
+            // a word that is a proper prefix of an earlier one (car / carpenters), or an earlier
+            // one with an ending, or a compound of two earlier ones (note + book)
+            let a: Vec<char> = src.pick(&v).chars().collect();
+            let w: String = match src.below(3) {
+                0 if a.len() >= 3 => a[..src.range(2, a.len() - 1)].iter().collect(),
+                1 => format!("{}{}", a.iter().collect::<String>(), src.pick(suffixes(lang))),
+                _ => format!("{}{}", a.iter().collect::<String>(), src.pick(&v)),
+            };
+            v.push(w);
+            continue;
+        }
         v.push(gen_word(src, lang, flavor));
     }
     v
